@@ -392,3 +392,291 @@ Proof.
   - apply cl_link_acyclic; auto. intros p Hp Hr. apply Hreach in Hr. now apply (Hne p).
   - intros a He. apply cl_link_spec in He as [He|[-> Hin]]; [now apply (Hnoin a)|]. now apply (Hne name).
 Qed.
+
+(* ------------------------------------------------------------------ backfill: the implements lists *)
+
+Lemma ClReach_path g a b : ClReach g a b -> a = b \/ ClPath g a b.
+Proof. intros H. inversion H; subst; [now left|right; eexists; eauto]. Qed.
+
+Lemma ClPath_reach g a b : ClPath g a b -> ClReach g a b.
+Proof. intros (c & He & Hr). eapply ClReach_step; eauto. Qed.
+
+Lemma cl_fold_insert_In l : forall acc x, In x (fold_left cl_insert l acc) <-> In x acc \/ In x l.
+Proof.
+  induction l as [|n l IH]; intros acc x; cbn [fold_left In]; [tauto|].
+  rewrite IH. unfold cl_insert. destruct (cl_mem n acc) eqn:E.
+  - apply cl_mem_In in E. intuition (subst; auto).
+  - rewrite in_app_iff. cbn [In]. intuition.
+Qed.
+
+Lemma cl_declared_In defs name p :
+  In p (cl_declared defs name) <-> exists d, In d defs /\ cld_name d = name /\ In p (cld_impls d).
+Proof.
+  unfold cl_declared. rewrite in_flat_map. split.
+  - intros (d & Hd & Hp). destruct (streq (cld_name d) name) eqn:E; [|destruct Hp].
+    apply streq_eq in E. eauto.
+  - intros (d & Hd & <- & Hp). exists d. split; auto. now rewrite streq_refl.
+Qed.
+
+Lemma cl_index_where_spec p defs : forall i0 i,
+  cl_index_where p defs i0 = Some i ->
+  exists k d, i = (i0 + k)%nat /\ nth_error defs k = Some d /\ p d = true.
+Proof.
+  induction defs as [|d defs IH]; intros i0 i H; cbn [cl_index_where] in H; [discriminate|].
+  destruct (p d) eqn:E.
+  - injection H as <-. exists 0%nat, d. repeat split; auto; lia.
+  - apply IH in H as (k & d' & -> & Hn & Hp). exists (S k), d'. repeat split; auto; lia.
+Qed.
+
+Lemma cl_base_index_spec defs name i :
+  cl_base_index defs name = Some i -> exists d, nth_error defs i = Some d /\ cld_name d = name.
+Proof.
+  unfold cl_base_index. intros H.
+  destruct (cl_index_where (fun d => negb (cld_extend d) && streq (cld_name d) name) defs 0) as [j|] eqn:E.
+  - injection H as <-. apply cl_index_where_spec in E as (k & d & -> & Hn & Hp). exists d. split; auto.
+    apply andb_true_iff in Hp as [_ Hp]. now apply streq_eq in Hp.
+  - apply cl_index_where_spec in H as (k & d & -> & Hn & Hp). exists d. split; auto. now apply streq_eq in Hp.
+Qed.
+
+Lemma cl_base_index_none defs name :
+  cl_base_index defs name = None -> forall d, In d defs -> cld_name d <> name.
+Proof.
+  unfold cl_base_index.
+  destruct (cl_index_where (fun d => negb (cld_extend d) && streq (cld_name d) name) defs 0); [discriminate|].
+  intros H d Hd Hn.
+  assert (G : forall defs i0, cl_index_where (fun d => streq (cld_name d) name) defs i0 = None ->
+                              forall d, In d defs -> cld_name d <> name).
+  { induction defs0 as [|d0 ds IH]; intros i0 H0 d' Hin; [destruct Hin|].
+    cbn [cl_index_where] in H0. destruct Hin as [<-|Hin].
+    - destruct (streq (cld_name d0) name) eqn:E; [discriminate|]. intros E'. rewrite E', streq_refl in E. discriminate.
+    - destruct (streq (cld_name d0) name); [discriminate|]. eapply IH; eauto. }
+  exact (G defs 0%nat H d Hd Hn).
+Qed.
+
+(* the parts of a definition the implements lists depend on *)
+Definition cl_shape (d : cl_def) : str * list str := (cld_name d, cld_impls d).
+
+Lemma cl_declared_shape a b name : map cl_shape a = map cl_shape b -> cl_declared a name = cl_declared b name.
+Proof.
+  revert b. induction a as [|x a IH]; intros [|y b] H; try discriminate; [reflexivity|].
+  injection H as Hn Hi Hab. unfold cl_declared. cbn [flat_map]. rewrite Hn, Hi.
+  f_equal. now apply IH.
+Qed.
+
+Lemma cl_update_at_shape defs i f :
+  (forall d, cl_shape (f d) = cl_shape d) -> map cl_shape (cl_update_at defs i f) = map cl_shape defs.
+Proof.
+  intros Hf. revert i. induction defs as [|d defs IH]; intros [|i]; cbn [cl_update_at map]; auto.
+  - now rewrite Hf.
+  - now rewrite IH.
+Qed.
+
+Lemma cl_rewrite_defs_shape defs name : forall inh defs' inh',
+  cl_rewrite_defs defs name inh = (defs', inh') -> map cl_shape defs' = map cl_shape defs.
+Proof.
+  induction defs as [|d defs IH]; intros inh defs' inh' H; cbn [cl_rewrite_defs] in H.
+  - now injection H as <- <-.
+  - destruct (streq (cld_name d) name).
+    + destruct (cl_rewrite_fields (cld_fields d) inh) as [fs' inh1].
+      destruct (cl_rewrite_defs defs name inh1) as [r' inh2] eqn:Er. injection H as <- <-.
+      cbn [map]. f_equal. eapply IH; eauto.
+    + destruct (cl_rewrite_defs defs name inh) as [r' inh2] eqn:Er. injection H as <- <-.
+      cbn [map]. f_equal. eapply IH; eauto.
+Qed.
+
+Lemma cl_streq_false a b : streq a b = false <-> a <> b.
+Proof.
+  split.
+  - intros H ->. now rewrite streq_refl in H.
+  - intros H. destruct (streq a b) eqn:E; auto. apply streq_eq in E. contradiction.
+Qed.
+
+Lemma cl_declared_update defs i f d name extra :
+  nth_error defs i = Some d -> cld_name d = name -> cld_name (f d) = name ->
+  (forall x, In x (cld_impls (f d)) <-> In x (cld_impls d) \/ In x extra) ->
+  forall n p, In p (cl_declared (cl_update_at defs i f) n) <-> In p (cl_declared defs n) \/ (n = name /\ In p extra).
+Proof.
+  intros Hn Hd Hfd Hf n p. revert i Hn. induction defs as [|d0 defs IH]; intros i Hn; [destruct i; discriminate|].
+  destruct i as [|i]; cbn [nth_error] in Hn.
+  - injection Hn as ->. cbn [cl_update_at]. unfold cl_declared. cbn [flat_map]. rewrite !in_app_iff.
+    rewrite Hfd, Hd. destruct (streq name n) eqn:E.
+    + apply streq_eq in E. subst n. rewrite Hf. intuition.
+    + apply cl_streq_false in E. intuition (try congruence).
+  - cbn [cl_update_at]. unfold cl_declared. cbn [flat_map]. rewrite !in_app_iff.
+    fold (cl_declared (cl_update_at defs i f) n). fold (cl_declared defs n). rewrite (IH i Hn). tauto.
+Qed.
+
+Lemma cl_update_at_names defs i f :
+  (forall d, cld_name (f d) = cld_name d) -> map cld_name (cl_update_at defs i f) = map cld_name defs.
+Proof.
+  intros Hf. revert i. induction defs as [|d defs IH]; intros [|i]; cbn [cl_update_at map]; auto.
+  - now rewrite Hf.
+  - now rewrite IH.
+Qed.
+
+(* one iteration of the backfill changes only the implements list of the base definition of `name`:
+   it gains the names reachable from `name` that no definition of `name` declares yet *)
+Lemma cl_backfill_one_declared is_iface ifaces defs g name defs' :
+  ClWf g ->
+  cl_backfill_one is_iface ifaces defs g name = Some defs' ->
+  map cld_name defs' = map cld_name defs /\
+  forall n p, In p (cl_declared defs' n) <->
+              In p (cl_declared defs n) \/
+              (n = name /\ (exists d, In d defs /\ cld_name d = name) /\ ClReach g name p /\ p <> name /\
+               In name (clg_nodes g)).
+Proof.
+  intros Hwf H. unfold cl_backfill_one in H.
+  destruct (cl_base_index defs name) as [base|] eqn:Eb.
+  2:{ injection H as <-. split; auto. intros n p. split; [auto|]. intros [Hd|(-> & (d & Hd & Hn) & _)]; auto.
+      exfalso. eapply cl_base_index_none; eauto. }
+  destruct (cl_base_index_spec _ _ _ Eb) as (bd & Hnth & Hbn).
+  unfold cl_expand in H. destruct (cl_closure g name) as [cls|] eqn:Ec; [|discriminate].
+  set (all := filter (fun n => negb (streq n name)) cls) in H.
+  set (by_ext := flat_map (fun d => if cld_extend d && streq (cld_name d) name then cld_impls d else []) defs) in H.
+  set (to_add := filter (fun p => negb (cl_mem p by_ext)) all) in H.
+  set (defs1 := cl_update_at defs base _) in H.
+  destruct (cl_rewrite_defs defs1 name _) as [defs2 rest] eqn:Er. injection H as <-.
+  assert (Hshape : map cl_shape (cl_update_at defs2 base
+            (fun d => {| cld_name := cld_name d; cld_extend := cld_extend d; cld_impls := cld_impls d;
+                         cld_fields := cld_fields d ++ rest |})) = map cl_shape defs1).
+  { rewrite cl_update_at_shape by reflexivity. eapply cl_rewrite_defs_shape; eauto. }
+  assert (Hdecl1 : forall n p, In p (cl_declared defs1 n) <-> In p (cl_declared defs n) \/ (n = name /\ In p to_add)).
+  { unfold defs1. eapply cl_declared_update; eauto. intros x. cbn [cld_impls]. apply cl_fold_insert_In. }
+  assert (Hext : forall p, In p by_ext -> In p (cl_declared defs name)).
+  { intros p Hp. unfold by_ext in Hp. apply in_flat_map in Hp as (d & Hd & Hp).
+    destruct (cld_extend d && streq (cld_name d) name) eqn:E; [|destruct Hp].
+    apply andb_true_iff in E as [_ E]. apply streq_eq in E. apply cl_declared_In. eauto. }
+  assert (Hhas : exists d, In d defs /\ cld_name d = name) by (exists bd; split; [eapply nth_error_In; eauto|auto]).
+  split.
+  - assert (Hn1 : map cld_name defs1 = map cld_name defs).
+    { unfold defs1. now apply cl_update_at_names. }
+    rewrite <- Hn1.
+    assert (G : forall a b, map cl_shape a = map cl_shape b -> map cld_name a = map cld_name b).
+    { induction a as [|x a IH]; intros [|y b] E; try discriminate; auto. injection E as E1 _ E2.
+      cbn [map]. rewrite E1. f_equal. now apply IH. }
+    now apply G.
+  - intros n p. rewrite (cl_declared_shape _ _ n Hshape), Hdecl1. split.
+    + intros [Hd|(-> & Hp)]; auto. unfold to_add, all in Hp. apply filter_In in Hp as [Hp _].
+      apply filter_In in Hp as [Hp Hne]. apply negb_true_iff, cl_streq_false in Hne.
+      right. split; auto. split; auto.
+      destruct (in_dec (list_eq_dec N.eq_dec) name (clg_nodes g)) as [Hnode|Hnode].
+      * split; [eapply cl_closure_sound; eauto|auto].
+      * rewrite (cl_closure_absent _ _ Hnode) in Ec. injection Ec as <-. destruct Hp.
+    + intros [Hd|(-> & _ & Hr & Hne & Hnode)]; auto.
+      destruct (in_dec (list_eq_dec N.eq_dec) p by_ext) as [Hin|Hnin]; [left; now apply Hext|].
+      right. split; auto. unfold to_add, all. apply filter_In. split.
+      * apply filter_In. split; [|now apply negb_true_iff, cl_streq_false].
+        destruct (cl_closure_exact g name Hwf Hnode) as (c & Hc & He). rewrite Ec in Hc. injection Hc as <-.
+        now apply He.
+      * now apply negb_true_iff, cl_mem_false.
+Qed.
+
+(* the loop over `order`, for any of the two backfills *)
+Definition cl_backfill_loop (step : list cl_def -> str -> option (list cl_def)) (order : list str)
+    (defs : list cl_def) : option (list cl_def) :=
+  fold_left (fun r name => match r with None => None | Some ds => step ds name end) order (Some defs).
+
+Lemma cl_backfill_loop_none (step : list cl_def -> str -> option (list cl_def)) order :
+  fold_left (fun r name => match r with None => None | Some ds => step ds name end) order None = None.
+Proof. induction order; cbn; auto. Qed.
+
+Section BackfillLoop.
+Variables (g : cl_graph) (step : list cl_def -> str -> option (list cl_def)).
+Hypothesis Hwf : ClWf g.
+Hypothesis Hac : ClAcyclic g.
+Hypothesis Hstep : forall defs name defs', step defs name = Some defs' ->
+  map cld_name defs' = map cld_name defs /\
+  forall n p, In p (cl_declared defs' n) <->
+              In p (cl_declared defs n) \/
+              (n = name /\ (exists d, In d defs /\ cld_name d = name) /\ ClReach g name p /\ p <> name /\
+               In name (clg_nodes g)).
+
+Definition ClDeclSound (defs : list cl_def) : Prop := forall n p, In p (cl_declared defs n) -> ClPath g n p.
+Definition ClDeclComplete (defs : list cl_def) (name : str) : Prop :=
+  forall p, ClPath g name p -> In p (cl_declared defs name).
+
+Lemma cl_has_def_names a b name :
+  map cld_name a = map cld_name b ->
+  (exists d, In d a /\ cld_name d = name) -> exists d, In d b /\ cld_name d = name.
+Proof.
+  intros E (d & Hd & Hn). assert (In name (map cld_name b)) by (rewrite <- E, <- Hn; now apply in_map).
+  apply in_map_iff in H as (d' & Hn' & Hd'). eauto.
+Qed.
+
+Lemma cl_backfill_loop_spec order : forall defs defs',
+  cl_backfill_loop step order defs = Some defs' ->
+  ClDeclSound defs ->
+  map cld_name defs' = map cld_name defs /\ ClDeclSound defs' /\
+  (forall n, ClDeclComplete defs n -> ClDeclComplete defs' n) /\
+  (forall name, In name order -> (exists d, In d defs /\ cld_name d = name) -> ClDeclComplete defs' name).
+Proof.
+  unfold cl_backfill_loop. induction order as [|nm order IH]; intros defs defs' H Hs; cbn [fold_left] in H.
+  - injection H as <-. repeat split; auto. intros name [].
+  - destruct (step defs nm) as [defs1|] eqn:Es; [|now rewrite cl_backfill_loop_none in H].
+    destruct (Hstep _ _ _ Es) as [Hn1 Hd1].
+    assert (Hs1 : ClDeclSound defs1).
+    { intros n p Hp. apply Hd1 in Hp as [Hp|(-> & _ & Hr & Hne & _)]; [now apply Hs|].
+      destruct (ClReach_path _ _ _ Hr); [congruence|auto]. }
+    assert (Hmono : forall n, ClDeclComplete defs n -> ClDeclComplete defs1 n).
+    { intros n Hc p Hp. apply Hd1. left. now apply Hc. }
+    assert (Hnew : (exists d, In d defs /\ cld_name d = nm) -> ClDeclComplete defs1 nm).
+    { intros Hhas p Hp. apply Hd1. right. split; auto. split; auto. split; [now apply ClPath_reach|]. split.
+      - intros ->. now apply (Hac nm).
+      - destruct Hp as (c & He & _). now apply Hwf in He as [He _]. }
+    destruct (IH _ _ H Hs1) as (Hn2 & Hs2 & Hmono2 & Hall2).
+    split; [congruence|]. split; [exact Hs2|]. split; [auto|].
+    intros name [<-|Hin] Hhas.
+    + apply Hmono2. now apply Hnew.
+    + apply Hall2; auto. eapply cl_has_def_names; [symmetry; exact Hn1|exact Hhas].
+Qed.
+End BackfillLoop.
+
+(* C32_closure_complete, the implements lists: after the backfill every definition whose name is in the order
+   lists (over its definition and extensions) exactly the names reachable from it by at least one edge *)
+Theorem cl_backfill_interfaces_closed order st st' :
+  ClWf (cls_graph st) -> ClAcyclic (cls_graph st) ->
+  (forall n p, In p (cl_declared (cls_ifaces st) n) -> ClEdge (cls_graph st) n p) ->
+  cl_backfill_interfaces order st = Some st' ->
+  forall name, In name order -> (exists d, In d (cls_ifaces st) /\ cld_name d = name) ->
+  forall p, In p (cl_declared (cls_ifaces st') name) <-> ClPath (cls_graph st) name p.
+Proof.
+  intros Hwf Hac Hedges H name Hin Hhas p. unfold cl_backfill_interfaces in H.
+  set (step := fun defs name => cl_backfill_one true defs defs (cls_graph st) name).
+  change (fold_left _ order (Some (cls_ifaces st))) with (cl_backfill_loop step order (cls_ifaces st)) in H.
+  destruct (cl_backfill_loop step order (cls_ifaces st)) as [ifaces|] eqn:El; [|discriminate].
+  injection H as <-. cbn [cls_ifaces].
+  assert (Hsound : ClDeclSound (cls_graph st) (cls_ifaces st)).
+  { intros n q Hq. exists q. split; [now apply Hedges|constructor]. }
+  destruct (cl_backfill_loop_spec (cls_graph st) step Hwf Hac
+              ltac:(intros; eapply cl_backfill_one_declared; eauto) order _ _ El Hsound) as (_ & Hs & _ & Hall).
+  split; [apply Hs|]. now apply Hall.
+Qed.
+
+Theorem cl_backfill_objects_closed st st' :
+  ClWf (cls_graph st) -> ClAcyclic (cls_graph st) ->
+  (forall n p, In p (cl_declared (cls_objs st) n) -> ClEdge (cls_graph st) n p) ->
+  cl_backfill_objects st = Some st' ->
+  forall name, (exists d, In d (cls_objs st) /\ cld_name d = name) ->
+  forall p, In p (cl_declared (cls_objs st') name) <-> ClPath (cls_graph st) name p.
+Proof.
+  intros Hwf Hac Hedges H name Hhas p. unfold cl_backfill_objects in H.
+  set (step := fun defs name => cl_backfill_one false (cls_ifaces st) defs (cls_graph st) name).
+  change (fold_left _ (cl_unique_names (cls_objs st)) (Some (cls_objs st)))
+    with (cl_backfill_loop step (cl_unique_names (cls_objs st)) (cls_objs st)) in H.
+  destruct (cl_backfill_loop step (cl_unique_names (cls_objs st)) (cls_objs st)) as [objs|] eqn:El; [|discriminate].
+  injection H as <-. cbn [cls_objs].
+  assert (Hsound : ClDeclSound (cls_graph st) (cls_objs st)).
+  { intros n q Hq. exists q. split; [now apply Hedges|constructor]. }
+  destruct (cl_backfill_loop_spec (cls_graph st) step Hwf Hac
+              ltac:(intros; eapply cl_backfill_one_declared; eauto) _ _ _ El Hsound) as (_ & Hs & _ & Hall).
+  split; [apply Hs|]. apply Hall; auto.
+  (* every defined name is in unique_names *)
+  destruct Hhas as (d & Hd & <-). clear - Hd. unfold cl_unique_names.
+  assert (G : forall defs seen, In d defs \/ In (cld_name d) seen ->
+                In (cld_name d) (fold_left (fun seen d => cl_insert seen (cld_name d)) defs seen)).
+  { induction defs as [|x defs IH]; intros seen [H|H]; cbn [fold_left]; try now destruct H. exact H.
+    - apply IH. destruct H as [<-|H]; [right|now left]. unfold cl_insert.
+      destruct (cl_mem (cld_name x) seen) eqn:E; [now apply cl_mem_In|apply in_or_app; right; now left].
+    - apply IH. right. unfold cl_insert. destruct (cl_mem (cld_name x) seen); [auto|apply in_or_app; now left]. }
+  apply G. now left.
+Qed.
